@@ -1,5 +1,170 @@
-"""additional phases of a check: sanitizer / interpreter shards (filled in per property)"""
+"""additional phases of a check: sanitizer / interpreter shards.
+
+Every phase re-runs (a small version of) the property's workload with the same monitors under
+an instrumented build: Miri (tree borrows), AddressSanitizer, ThreadSanitizer, valgrind memcheck.
+A sanitizer report whose backtrace has a frame in /repo/src is a violation of the property whose
+workload it is; reports entirely inside dependencies are notes. A build failure or a shard that
+ran nothing makes the phase inconclusive (never a violation).
+"""
+import json, os, re, subprocess, time, shutil
+
+VERIF = os.path.dirname(os.path.abspath(__file__))
+BUILD = os.path.join(VERIF, ".build")
+HARNESS = os.path.join(VERIF, "harness")
+NCPU = os.cpu_count() or 4
+BASE_ENV = dict(os.environ, CARGO_NET_OFFLINE="true", TZ="UTC")
+TARGET = "x86_64-unknown-linux-gnu"
+
+
+def _run(cmd, env=None, cwd=None, timeout=None):
+    try:
+        r = subprocess.run(cmd, stdout=subprocess.PIPE, stderr=subprocess.STDOUT, text=True, env=env or BASE_ENV, cwd=cwd, timeout=timeout)
+        return r.returncode, r.stdout
+    except subprocess.TimeoutExpired as e:
+        return None, (e.stdout or "") if isinstance(e.stdout, str) else ""
+
+
+def build(kind, log):
+    """returns (path to vmon or None, note)"""
+    t = time.time()
+    if kind == "asan":
+        env = dict(BASE_ENV, RUSTFLAGS="-Zsanitizer=address -Cforce-frame-pointers=yes")
+        cmd = ["cargo", "+nightly", "build", "--release", "--offline", "--target", TARGET, "--target-dir", os.path.join(BUILD, "asan")]
+        exe = os.path.join(BUILD, "asan", TARGET, "release", "vmon")
+    elif kind == "tsan":
+        env = dict(BASE_ENV, RUSTFLAGS="-Zsanitizer=thread")
+        cmd = ["cargo", "+nightly", "build", "--release", "--offline", "-Zbuild-std", "--target", TARGET, "--target-dir", os.path.join(BUILD, "tsan")]
+        exe = os.path.join(BUILD, "tsan", TARGET, "release", "vmon")
+    elif kind == "valgrind":
+        # plain build, run under valgrind
+        return os.path.join(BUILD, "plain", "release", "vmon"), "plain build"
+    else:
+        raise RuntimeError(kind)
+    rc, out = _run(cmd, env=env, cwd=HARNESS, timeout=3600)
+    if rc != 0:
+        return None, f"{kind} build failed: {out[-1500:]}"
+    return exe, f"{kind} build {time.time() - t:.0f}s"
+
+
+IN_REPO = re.compile(r"(/repo/src/[A-Za-z0-9_/]+\.rs):(\d+)")
+
+
+def first_repo_frame(text):
+    m = IN_REPO.search(text)
+    return (m.group(1).replace("/repo/", ""), m.group(2)) if m else None
+
+
+def classify(kind, text):
+    """returns list of (class, detail) for sanitizer reports in the output"""
+    res = []
+    if kind == "miri":
+        for blk in re.split(r"(?=error: Undefined Behavior|error: unsupported operation|error: Data race)", text):
+            if blk.startswith("error: Undefined Behavior") or blk.startswith("error: Data race"):
+                head = blk.split("\n", 1)[0][:160]
+                fr = first_repo_frame(blk)
+                res.append((fr, head, blk[:1500]))
+    elif kind == "asan":
+        for blk in re.split(r"(?===\d+==ERROR: AddressSanitizer)", text):
+            if "ERROR: AddressSanitizer" in blk[:60]:
+                head = blk.split("\n", 1)[0][:160]
+                res.append((first_repo_frame(blk), head, blk[:1500]))
+    elif kind == "tsan":
+        for blk in re.split(r"(?=WARNING: ThreadSanitizer)", text):
+            if blk.startswith("WARNING: ThreadSanitizer"):
+                head = blk.split("\n", 1)[0][:160]
+                res.append((first_repo_frame(blk), head, blk[:1500]))
+    elif kind == "valgrind":
+        for blk in re.split(r"(?===\d+== (?:Invalid|Conditional jump|Use of uninitialised|Syscall param))", text):
+            if re.match(r"==\d+== (Invalid|Conditional jump|Use of uninitialised|Syscall param)", blk):
+                head = blk.split("\n", 1)[0][:160]
+                res.append((first_repo_frame(blk), head, blk[:1500]))
+    return res
+
 
 def run_phase(ph, pid, tier, seed, tmpdir, log):
     kind = ph["kind"]
-    raise RuntimeError(f"unknown phase {kind}")
+    secs = ph.get("secs", 60)
+    shards = ph.get("shards", NCPU)
+    args = list(ph.get("args", []))
+    notes, violations, vclasses = [], [], {}
+    summary = {"build": kind, "executions": 0, "reports": 0, "reports_in_repo": 0, "notes": []}
+    t0 = time.time()
+    procs = []
+    env = dict(BASE_ENV)
+    env.update(ph.get("env", {}))
+    if kind == "miri":
+        env["MIRIFLAGS"] = "-Zmiri-tree-borrows -Zmiri-disable-isolation -Zmiri-env-forward=VMON_TINY " + ph.get("miriflags", "")
+        base = ["cargo", "+nightly", "miri", "run", "--offline", "--target-dir", os.path.join(BUILD, "miri"), "--"]
+        # build once (sysroot + deps) so that the shards do not race on the target dir
+        rc, out = _run(["cargo", "+nightly", "miri", "run", "--offline", "--target-dir", os.path.join(BUILD, "miri"), "--", "c01", "--cases", "1", "--secs", "1", "--out", os.path.join(tmpdir, "miri_warm.json")], env=env, cwd=HARNESS, timeout=3600)
+        if rc != 0:
+            summary["notes"].append("miri warm-up run failed: " + out[-800:])
+            return {"summary": summary, "inconclusive": 1, "notes": [f"{pid} miri phase could not start (inconclusive)"]}
+        cwd = HARNESS
+    else:
+        exe, note = build(kind, log)
+        summary["notes"].append(note)
+        if exe is None:
+            return {"summary": summary, "inconclusive": 1, "notes": [f"{pid} {kind} phase: build failed (inconclusive)"]}
+        if kind == "asan":
+            env["ASAN_OPTIONS"] = "detect_leaks=0:halt_on_error=1:abort_on_error=1:symbolize=1"
+            env["ASAN_SYMBOLIZER_PATH"] = shutil.which("llvm-symbolizer") or shutil.which("llvm-symbolizer-14") or ""
+            base = [exe]
+        elif kind == "tsan":
+            env["TSAN_OPTIONS"] = "halt_on_error=1:exitcode=66:second_deadlock_stack=1"
+            base = [exe]
+        else:
+            base = ["valgrind", "--error-exitcode=99", "-q", "--num-callers=30", exe]
+        cwd = tmpdir
+    if ph.get("needs_bin"):
+        args = args + [f"adlt_bin={os.path.join(BUILD, 'adlt-bin', 'release', 'adlt')}"]
+    for i in range(shards):
+        out = os.path.join(tmpdir, f"{kind}_shard_{i}.json")
+        if os.path.exists(out):
+            os.remove(out)
+        cmd = base + [pid.lower(), "--seed", str(seed * 1000 + 7 + i), "--shard", str(i), "--of", str(shards), "--tier", tier, "--secs", str(secs), "--cases", str(ph.get("cases", 0)), "--out", out] + args
+        lf = open(os.path.join(tmpdir, f"{kind}_shard_{i}.log"), "w")
+        procs.append((i, out, subprocess.Popen(cmd, stdout=lf, stderr=subprocess.STDOUT, env=env, cwd=cwd), lf))
+    deadline = time.time() + secs * ph.get("timeout_factor", 6) + 600
+    inconclusive = 0
+    for i, out, pr, lf in procs:
+        try:
+            rc = pr.wait(timeout=max(1, deadline - time.time()))
+        except subprocess.TimeoutExpired:
+            pr.kill(); pr.wait(); rc = None
+        lf.close()
+        text = open(os.path.join(tmpdir, f"{kind}_shard_{i}.log"), errors="replace").read()
+        reports = classify(kind, text)
+        summary["reports"] += len(reports)
+        for fr, head, blk in reports:
+            if fr:
+                summary["reports_in_repo"] += 1
+                cls = f"{kind}:{head.split(':', 2)[-1].strip()[:60]}@{fr[0]}"
+                vclasses[cls] = vclasses.get(cls, 0) + 1
+                if len(violations) < 6:
+                    violations.append({"class": cls, "detail": f"{kind} report with a frame in {fr[0]}:{fr[1]}: {head}", "replay": {"kind": kind, "shard": i, "seed": seed, "report": blk}})
+            else:
+                n = f"{kind} report without a frame in /repo/src (dependency code, logged as note): {head}"
+                if n not in notes and len(notes) < 10:
+                    notes.append(n)
+        if os.path.exists(out):
+            try:
+                r = json.load(open(out))
+                summary["executions"] += r.get("counters", {}).get("evaluations", 0)
+                # the monitors' own violations under this build count as well
+                for v in r.get("violations", []):
+                    v = dict(v); v["detail"] = f"[{kind} build] " + v["detail"]
+                    violations.append(v)
+                for k, n in r.get("violation_classes", {}).items():
+                    vclasses[k] = vclasses.get(k, 0) + n
+                continue
+            except Exception:
+                pass
+        if not reports:
+            inconclusive += 1
+            notes.append(f"{kind} shard {i}: rc={rc}, no report and no result (inconclusive): {text[-300:]!r}")
+    summary["wall_s"] = round(time.time() - t0, 1)
+    summary["notes"].extend(notes[:6])
+    if summary["executions"] == 0 and not violations:
+        inconclusive += 1
+    return {"summary": summary, "violations": violations, "violation_classes": vclasses, "inconclusive": inconclusive, "notes": notes}
